@@ -121,6 +121,23 @@ func c10Key(s *c10State) string {
 		sb.WriteString(e.String())
 		sb.WriteByte(';')
 	}
+	// ... except a surplus end at the very end of the prefix: that state is kept
+	// apart and expanded once, so that every event is also replayed directly
+	// after a surplus end (that surplus ends are no-ops is what is being
+	// verified, it must not be assumed by the canonicalisation)
+	if n := len(s.evs); n > 0 && s.evs[n-1].K == impl.EvEnd && len(s.stack) == 0 {
+		d := 0
+		for _, e := range s.evs[:n-1] {
+			if e.K == impl.EvStart {
+				d++
+			} else if e.K == impl.EvEnd && d > 0 {
+				d--
+			}
+		}
+		if d == 0 {
+			sb.WriteString("SURPLUS-END;")
+		}
+	}
 	return sb.String()
 }
 
@@ -248,7 +265,7 @@ func C10CheckTree(root store.Cursor, model *adoc.Doc) string {
 }
 
 func C10(c *run.Check) {
-	c.Rule = "explicit-state BFS over the Parser-contract automaton (13-event alphabet); state = legal event prefix canonicalised by dropping no-op surplus end events; every transition replays prefix+event+closing ends into a fresh store.CreateInMemory; non-trivial = distinct resulting model tree"
+	c.Rule = "explicit-state BFS over the Parser-contract automaton (13-event alphabet); state = legal event prefix canonicalised by dropping surplus end events except one at the very end (so every event is also replayed directly after a surplus end); every transition replays prefix+event+closing ends into a fresh store.CreateInMemory; non-trivial = distinct resulting model tree"
 	maxDepth := 6
 	if !c.Quick() {
 		maxDepth = 8
